@@ -96,8 +96,8 @@ theorem contentKey_spec (H : PlayReady.Bytes → PlayReady.Bytes) (seed kid : Pl
   rw [this]
   simp [keySize]
 
-/-- the halves-XOR reading of the same algorithm: when the hash produces 32 bytes
-(SHA-256) the key is `fold(A) ⊕ fold(B) ⊕ fold(C)` with `fold(D) = D[0:16] ⊕ D[16:32]` -/
+/-- byte `i` of the derived key, spelled out: the XOR of bytes `i` and `i+16` of each of the
+three digests (for a 32-byte hash: `fold(A) ⊕ fold(B) ⊕ fold(C)`, `fold(D) = D[0:16] ⊕ D[16:32]`) -/
 theorem keySeedSpec_pointwise (H : PlayReady.Bytes → PlayReady.Bytes) (seed kid : PlayReady.Bytes)
     (i : Nat) (hi : i < 16) :
     (keySeedSpec H seed kid)[i]? = some (
